@@ -25,6 +25,8 @@ META = {
     'exhaustive': True,
 }
 
+META['explanation'] += ' ' + "R1 accepts save / swap / restore of class level state only on a class named in the source. R4: observers return copies, never the object's own mutable containers."
+
 OBSERVERS = ['compose', 'ja3', 'hassh', 'hassh_server', 'fingerprints', 'key_bytes', 'key_tag', 'host_key_asdict',
              '_asdict', 'as_json', '_as_markdown', 'as_markdown', '__str__', '__eq__', '__lt__', '__hash__', 'identifier',
              '_markdown_result', '_markdown_result_complex', '_markdown_human_readable_names', '_markdown_result_list',
